@@ -277,11 +277,15 @@ func mergeCustomObjectFields(aTypes, bTypes map[string]*ast.Definition, a, b *as
 	isOverlappinggMap := make(map[int]bool)
 	mf := mergeableFields(b)
 	for i, f := range mf {
+		rf := result.ForName(f.Name)
+		if rf != nil && !isSameFieldSignature(rf, f) {
+			return nil, fmt.Errorf("conflicting declarations of field %s.%s", a.Name, f.Name)
+		}
+
 		if isIDField(f) {
 			continue
 		}
 
-		rf := result.ForName(f.Name)
 		isOverlappinggMap[i] = rf != nil
 		result = append(result, f)
 	}
@@ -316,6 +320,30 @@ func mergeCustomObjectFields(aTypes, bTypes map[string]*ast.Definition, a, b *as
 	}
 
 	return result, nil
+}
+
+// isSameFieldSignature reports whether two declarations of a shared field have
+// the same type and the same arguments (name, type, default value) in the same order
+func isSameFieldSignature(a, b *ast.FieldDefinition) bool {
+	if a.Type.String() != b.Type.String() {
+		return false
+	}
+	if len(a.Arguments) != len(b.Arguments) {
+		return false
+	}
+	for i, arg := range a.Arguments {
+		other := b.Arguments[i]
+		if arg.Name != other.Name || arg.Type.String() != other.Type.String() {
+			return false
+		}
+		if (arg.DefaultValue == nil) != (other.DefaultValue == nil) {
+			return false
+		}
+		if arg.DefaultValue != nil && arg.DefaultValue.String() != other.DefaultValue.String() {
+			return false
+		}
+	}
+	return true
 }
 
 func mergeableFields(t *ast.Definition) ast.FieldList {
